@@ -88,6 +88,13 @@ def kernel_obligation(T: str, D: str, table, kind="cset") -> Dict:
 # ----------------------------------------------------------------------------- entry points x dtype configurations
 def sample(T: str, n=3, variant: int = 0):
     dt = numpy.dtype(T)
+    if variant == 2:
+        # values whose products and sums round in the type (and, for complex types, conjugate-like pairs)
+        if dt.kind in "biu":
+            return numpy.array([3, 1, 7][:n], dtype=dt)
+        if dt.kind == "f":
+            return numpy.array([0.1, 1 / 3.0, 0.7][:n], dtype=dt)
+        return numpy.array([0.1 + 0.2j, 0.3 - 0.7j, 0.1 + 0.7j][:n], dtype=dt)
     if variant == 1:
         # the edges of the dtype: extreme integers; smallest subnormal, half the smallest normal and the largest finite float
         if dt.kind == "b":
@@ -115,7 +122,9 @@ def _lin(T: str, variant: int = 0):
     """Coefficient array of the non-constant term: ones; in the edge variant values that are *all* subnormal (floats) / extreme (ints),
     so that a term made of nothing but such values must survive cleaning."""
     dt = numpy.dtype(T)
-    if variant == 0 or dt.kind == "b":
+    if variant == 2 and dt.kind in "fc":
+        return numpy.array([0.7, 0.1, 1 / 3.0], dtype=dt) if dt.kind == "f" else numpy.array([0.3 - 0.7j, 0.1 - 0.7j, 0.2 + 0.1j], dtype=dt)
+    if variant in (0, 2) or dt.kind == "b":
         return numpy.ones(3, dtype=dt)
     if dt.kind in "iu":
         info = numpy.iinfo(dt)
@@ -385,6 +394,8 @@ def gen_cases(tier: str, seed: int) -> List[Dict]:
     for T, D in pairs:
         cases.append({"id": "C12-A-%s-%s" % (T, D), "op": "dtype", "part": "A", "T": T, "D": D})
         cases.append({"id": "C12-A-%s-%s-edges" % (T, D), "op": "dtype", "part": "A", "T": T, "D": D, "variant": 1})
+        if numpy.dtype(T).kind in "fc" and numpy.dtype(D).kind in "fc":
+            cases.append({"id": "C12-A-%s-%s-inexact" % (T, D), "op": "dtype", "part": "A", "T": T, "D": D, "variant": 2})
     # Part B: catalogue under Havoc
     for src in SOURCES:
         mod = importlib.import_module("nv.checks." + src)
